@@ -141,6 +141,8 @@ def match_dict_case(rng):
     binder_key = rng.choice([['AssignScope', False, 'k'], ['Bind', [['k', ['T', 'T', []]]]]])
     rd = ['Auto', ['Tuple', [['Coalesce', [['T', 'S', [['.', ['Str', 'k']]]]], ['Lit', 'MISSING'], None, None, None], ['Fn', ['probe', 1]]]]]
     own = ['Auto', ['Tuple', [['Coalesce', [['T', 'S', [['.', ['Str', 'k']]]]], ['Lit', 'MISSING'], None, None, None], ['Fn', ['probe', 2]]]]]
+    if rng.random() < 0.5:
+        binder_key = ['Required', binder_key]     # Required(k) is k for scoping: the binding still reaches the entry's own value spec
     entries = [[['Str', 'name'], rd], [binder_key, own]]
     if rng.random() < 0.5:
         entries.reverse()
